@@ -136,9 +136,7 @@ let run toks =
       let phi = parse_pairs ps and roots = parse_pairs rs in
       if not (roots_covered a b phi roots) then "ok false roots-not-covered"
       else if tl2_equiv a b phi then "ok true"
-      else (match first_bad a b phi phi with
-            | Some (x, y) -> Printf.sprintf "ok false pair %d %d" (int_of_nat x) (int_of_nat y)
-            | None -> "ok false")
+      else "ok false" ^ String.concat "" (List.map (fun (x, y) -> Printf.sprintf " %d,%d" (int_of_nat x) (int_of_nat y)) (all_bad a b phi))
   | "tlo" :: version :: now :: n :: rest ->
       let (cs, _) = take_n (nat_int n) p_comb rest in
       (match tlo (n_of_dec version) (n_of_dec now) cs with
